@@ -36,7 +36,7 @@ class SimCrash(BaseException):
 
 
 class StepTimeout(BaseException):
-    """A single step (one API call plus its oracle) exceeded STEP_LIMIT_S of wall
+    """A single step (one API call plus its oracle) exceeded STEP_LIMIT_S of CPU
     time: the call hangs.  Reported as a violation of the property that promises
     the call's outcome, never silently killed."""
 
@@ -246,15 +246,16 @@ class World:
             raise HarnessError("unknown op %r in world %s" % (step["op"], self.NAME))
         before = self.abstract_state()
         try:
-            signal.setitimer(signal.ITIMER_REAL, STEP_LIMIT_S)
+            # CPU time of this process, not wall time: a loaded machine must not turn a slow step into a hang
+            signal.setitimer(signal.ITIMER_VIRTUAL, STEP_LIMIT_S)
             try:
                 outcome = op(step) or "ok"
             finally:
-                signal.setitimer(signal.ITIMER_REAL, 0)
+                signal.setitimer(signal.ITIMER_VIRTUAL, 0)
         except Skip:
             outcome = "skipped"
         except StepTimeout:
-            self.fail(self.prop_of(step), "step.hang", "%s did not return within %g s of wall time (a step "
+            self.fail(self.prop_of(step), "step.hang", "%s did not return within %g s of CPU time (a step "
                       "normally takes milliseconds)" % (step["op"], STEP_LIMIT_S), "a result", "no return")
             outcome = "hang"
         except HarnessError:
@@ -291,7 +292,7 @@ def execute_run(world_cls, cfg, steps=None, rngs=None):
     outcomes = []
     saved_stdout = sys.stdout
     sys.stdout = SINK
-    signal.signal(signal.SIGALRM, _on_alarm)
+    signal.signal(signal.SIGVTALRM, _on_alarm)
     try:
         w.setup()
         i = 0
